@@ -23,6 +23,13 @@
 //!   (an input contract that does not exist: `transact` returns an error after init),
 //!   small-heap / mem-read (ALOC + CFE and emit the *unwritten* memory: RETD/LOGD of the
 //!   region resp. its SHA-256),
+//!   list-c (lists contract C as a third input contract and calls it), mixed-owners
+//!   (coin inputs of two owners: GM GetOwner panics), and TARGET-ONLY members that read
+//!   state derived from the transaction at initialisation (they follow every history
+//!   but do not extend one): touch-c-bal|tr|csiz|call (inputs A,B only; touching C must
+//!   panic ContractNotInInputs), gtf-cout-0..4 (a transaction WITHOUT contract inputs:
+//!   GTF InputContractOutputIndex must panic InputNotFound), gm-owner, tx-meta, nc-meta
+//!   (GM/GTF answers of the standard resp. contract-less transaction),
 //!   plus (interpreter model only) predicate-only actions: check / estimate /
 //!   into_checked_reusable_memory of 6 predicate transactions on the instance's memory.
 //! Three models over the same alphabet:
@@ -36,7 +43,8 @@
 //! Bound: all histories of length <= 2 (quick) / <= 3 (thorough), each followed by each
 //! target = all transitions of the BFS to depth 3 / 4; thorough adds the interp model
 //! over a core of 8 transactions (heap64k, deepstack, panic-in-call, store, load, flags,
-//! small-heap, mem-read) to depth 6 (histories <= 5).
+//! small-heap, mem-read) to depth 6 (histories <= 5), and a depth-3 run in which the
+//! target-only members extend histories too.
 //! Predicate pool part: every predicate transaction is checked by
 //! `check_predicates_async` with a harness `VmMemoryPool` that hands out memories left
 //! behind by every history of length <= 1 (quick) / <= 2 (thorough) (for the
@@ -64,13 +72,18 @@ use std::{
 
 use fuel_asm::{
     op,
+    GMArgs,
+    GTFArgs,
     Instruction,
     PanicReason,
     RegId,
     Word,
 };
 use fuel_tx::{
-    field::Inputs,
+    field::{
+        Inputs,
+        Outputs,
+    },
     Finalizable,
     Input,
     Output,
@@ -387,6 +400,124 @@ fn script_pool() -> Vec<(&'static str, Vec<Instruction>, String)> {
         ],
         "ReturnData".into(),
     ));
+
+    // ---- state derived from the transaction at initialisation ----
+
+    // lists C as a third input contract (+ output) and calls it (shaped in `Env::new`)
+    v.push((
+        "list-c",
+        vec![
+            op::call(r::CALL_C, RegId::ZERO, r::ASSET_BASE, RegId::CGAS),
+            op::ret(RegId::RET),
+        ],
+        "Return(1)".into(),
+    ));
+
+    // the two coin inputs get different owners: the transaction owner is unknown
+    v.push((
+        "mixed-owners",
+        vec![op::gm_args(0x10, GMArgs::GetOwner), op::ret(RegId::ONE)],
+        "Revert(0)/Panic(OwnerIsUnknown,None)".into(),
+    ));
+
+    // TARGET-ONLY from here (see `TARGET_ONLY`): inputs A,B; each touches the unlisted
+    // contract C and must panic whatever the instance ran before
+    let unlisted = "Revert(0)/Panic(ContractNotInInputs".to_string();
+    v.push((
+        "touch-c-bal",
+        vec![op::bal(0x10, r::ASSET_BASE, r::CALL_C), op::ret(0x10)],
+        unlisted.clone(),
+    ));
+    v.push((
+        "touch-c-tr",
+        vec![
+            op::movi(0x10, 5),
+            op::tr(r::CALL_C, 0x10, r::ASSET_X),
+            op::ret(RegId::ONE),
+        ],
+        unlisted.clone(),
+    ));
+    v.push((
+        "touch-c-csiz",
+        vec![op::csiz(0x10, r::CALL_C), op::ret(0x10)],
+        unlisted.clone(),
+    ));
+    v.push((
+        "touch-c-call",
+        vec![
+            op::call(r::CALL_C, RegId::ZERO, r::ASSET_BASE, RegId::CGAS),
+            op::ret(RegId::RET),
+        ],
+        unlisted,
+    ));
+
+    // transactions WITHOUT contract inputs/outputs asking for the contract-output index
+    // of input i: there is none, whatever the instance ran before
+    for (i, name) in ["gtf-cout-0", "gtf-cout-1", "gtf-cout-2", "gtf-cout-3", "gtf-cout-4"]
+        .into_iter()
+        .enumerate()
+    {
+        v.push((
+            name,
+            vec![
+                op::movi(0x13, i as u32),
+                op::gtf_args(0x10, 0x13, GTFArgs::InputContractOutputIndex),
+                op::log(0x10, 0x13, RegId::ZERO, RegId::ZERO),
+                op::ret(0x10),
+            ],
+            "Revert(0)/Panic(InputNotFound,None)".into(),
+        ));
+    }
+
+    // owner pointer and the owner bytes
+    v.push((
+        "gm-owner",
+        vec![
+            op::gm_args(0x10, GMArgs::GetOwner),
+            op::movi(0x11, 32),
+            op::logd(RegId::ZERO, RegId::ZERO, 0x10, 0x11),
+            op::log(0x10, RegId::ZERO, RegId::ZERO, RegId::ZERO),
+            op::ret(RegId::ONE),
+        ],
+        "Return(1)".into(),
+    ));
+
+    // metadata answers of the standard transaction (inputs coin,coin,A,B)
+    v.push((
+        "tx-meta",
+        vec![
+            op::gm_args(0x10, GMArgs::GetChainId),
+            op::gm_args(0x11, GMArgs::TxStart),
+            op::gm_args(0x12, GMArgs::BaseAssetId),
+            op::log(0x10, 0x11, 0x12, RegId::ZERO),
+            op::gtf_args(0x10, RegId::ZERO, GTFArgs::ScriptInputsCount),
+            op::gtf_args(0x11, RegId::ZERO, GTFArgs::ScriptOutputsCount),
+            op::gtf_args(0x12, RegId::ZERO, GTFArgs::PolicyTypes),
+            op::log(0x10, 0x11, 0x12, RegId::ONE),
+            op::movi(0x13, 2),
+            op::gtf_args(0x10, 0x13, GTFArgs::InputContractOutputIndex),
+            op::movi(0x13, 3),
+            op::gtf_args(0x11, 0x13, GTFArgs::InputContractOutputIndex),
+            op::log(0x10, 0x11, RegId::ZERO, RegId::ZERO),
+            op::ret(RegId::ONE),
+        ],
+        "Return(1)".into(),
+    ));
+
+    // the same for the transaction without contract inputs
+    v.push((
+        "nc-meta",
+        vec![
+            op::gm_args(0x10, GMArgs::GetOwner),
+            op::movi(0x11, 32),
+            op::logd(RegId::ZERO, RegId::ZERO, 0x10, 0x11),
+            op::gtf_args(0x10, RegId::ZERO, GTFArgs::ScriptInputsCount),
+            op::gtf_args(0x11, RegId::ZERO, GTFArgs::ScriptOutputsCount),
+            op::log(0x10, 0x11, RegId::ZERO, RegId::ZERO),
+            op::ret(RegId::ONE),
+        ],
+        "Return(1)".into(),
+    ));
     v
 }
 
@@ -454,6 +585,61 @@ fn pred_pool() -> Vec<(&'static str, Vec<Vec<Instruction>>, &'static str)> {
     ]
 }
 const PREDTX: usize = 5; // index in pred_pool used by the script action "predtx"
+
+/// Pool members that only read state derived at initialisation (or panic at once):
+/// they are targets after every history but do not extend a history (except in the
+/// thorough tier's "all letters" run).
+const TARGET_ONLY: [&str; 12] = [
+    "touch-c-bal",
+    "touch-c-tr",
+    "touch-c-csiz",
+    "touch-c-call",
+    "gtf-cout-0",
+    "gtf-cout-1",
+    "gtf-cout-2",
+    "gtf-cout-3",
+    "gtf-cout-4",
+    "gm-owner",
+    "tx-meta",
+    "nc-meta",
+];
+
+/// Give the world's standard transaction (inputs coin, coin, A, B) the shape the pool
+/// member needs.
+fn shape_tx(name: &str, tx: &mut Script) {
+    if name == "bad-input" {
+        for i in tx.inputs_mut() {
+            if let Input::Contract(c) = i {
+                if c.contract_id == B {
+                    c.contract_id = D;
+                }
+            }
+        }
+    }
+    if name == "list-c" {
+        let idx = tx.inputs().len() as u16;
+        tx.inputs_mut().push(Input::contract(
+            UtxoId::new(Bytes32::new([0x1c; 32]), 0),
+            Bytes32::zeroed(),
+            Bytes32::zeroed(),
+            TxPointer::default(),
+            C,
+        ));
+        tx.outputs_mut()
+            .push(Output::contract(idx, Bytes32::zeroed(), Bytes32::zeroed()));
+    }
+    if name == "mixed-owners" {
+        if let Some(Input::CoinSigned(c)) = tx.inputs_mut().get_mut(1) {
+            c.owner = Address::new([0x56; 32]);
+        } else {
+            panic!("world layout changed: input 1 is not a signed coin");
+        }
+    }
+    if name.starts_with("gtf-cout-") || name.starts_with("nc-") {
+        tx.inputs_mut().retain(|i| !i.is_contract());
+        tx.outputs_mut().retain(|o| !o.is_contract());
+    }
+}
 
 // ------------------------------------------------------------------ environment
 
@@ -626,15 +812,7 @@ impl Env {
                     }
                 } else {
                     let mut tx = world.tx(world.script_bytes(&body), GAS);
-                    if name == "bad-input" {
-                        for i in tx.inputs_mut() {
-                            if let Input::Contract(c) = i {
-                                if c.contract_id == B {
-                                    c.contract_id = D;
-                                }
-                            }
-                        }
-                    }
+                    shape_tx(name, &mut tx);
                     let checked = tx
                         .into_checked_basic(BlockHeight::new(0), &world.params)
                         .expect("world tx must pass basic checks");
@@ -708,6 +886,18 @@ impl Env {
             v.extend((0..self.preds.len()).map(Act::P));
         }
         v
+    }
+
+    fn target_only(&self, a: Act) -> bool {
+        matches!(a, Act::S(i) if TARGET_ONLY.contains(&self.scripts[i].name))
+    }
+
+    /// Letters that may extend a history.
+    fn history_alphabet(&self, mode: Mode) -> Vec<Act> {
+        self.alphabet(mode)
+            .into_iter()
+            .filter(|a| !self.target_only(*a))
+            .collect()
     }
 
     fn name(&self, a: Act) -> String {
@@ -1289,6 +1479,8 @@ struct ReuseModel<'a> {
     env: &'a Env,
     mode: Mode,
     alphabet: Vec<Act>,
+    /// target-only letters also extend histories (thorough "all letters" run)
+    all_extend: bool,
     label: &'static str,
     acc: Mutex<Acc>,
 }
@@ -1302,8 +1494,11 @@ impl Model for ReuseModel<'_> {
         vec![]
     }
 
-    fn actions(&self, _s: &Vec<Act>) -> Vec<Act> {
-        self.alphabet.clone()
+    fn actions(&self, s: &Vec<Act>) -> Vec<Act> {
+        match s.last() {
+            Some(l) if !self.all_extend && self.env.target_only(*l) => vec![],
+            _ => self.alphabet.clone(),
+        }
     }
 
     fn step(&self, s: &Vec<Act>, a: &Act, _path: &[Act], ctx: &Ctx) -> Option<Vec<Act>> {
@@ -1344,7 +1539,7 @@ impl Model for ReuseModel<'_> {
             let take = {
                 let mut acc = self.acc.lock().unwrap();
                 acc.samples += 1;
-                acc.samples <= if self.label == "interp-core-deep" { 1 } else { 2 }
+                acc.samples <= if self.label.starts_with("interp-") { 1 } else { 2 }
             };
             if take {
                 ctx.sample(json!({
@@ -1595,25 +1790,28 @@ fn explore(ctx: &Ctx) {
 
     // reuse: BFS to depth (history length + 1)
     let depth = ctx.pick(3usize, 4usize);
-    let mut runs: Vec<(Mode, &'static str, Vec<Act>, usize)> = vec![
-        (Mode::Interp, "interp", env.alphabet(Mode::Interp), depth),
-        (Mode::Transactor, "transactor", env.alphabet(Mode::Transactor), depth),
-        (Mode::Client, "client", env.alphabet(Mode::Client), depth),
+    let mut runs: Vec<(Mode, &'static str, Vec<Act>, usize, bool)> = vec![
+        (Mode::Interp, "interp", env.alphabet(Mode::Interp), depth, false),
+        (Mode::Transactor, "transactor", env.alphabet(Mode::Transactor), depth, false),
+        (Mode::Client, "client", env.alphabet(Mode::Client), depth, false),
     ];
     if ctx.thorough() {
+        // the target-only letters as history elements too (histories <= 2)
+        runs.push((Mode::Interp, "interp-all-letters", env.alphabet(Mode::Interp), 3, true));
         // longer histories (<= 5) over the transactions that leave / reveal the most
         let core: Vec<Act> = ["heap64k", "deepstack", "panic-in-call", "store", "load", "flags", "small-heap", "mem-read"]
             .iter()
             .map(|n| env.parse(n))
             .collect();
-        runs.push((Mode::Interp, "interp-core-deep", core, 6));
+        runs.push((Mode::Interp, "interp-core-deep", core, 6, false));
     }
-    for (mode, label, alphabet, depth) in runs {
+    for (mode, label, alphabet, depth, all_extend) in runs {
         let names = env.names(&alphabet);
         let m = ReuseModel {
             env: &env,
             mode,
             alphabet,
+            all_extend,
             label,
             acc: Mutex::new(Acc::default()),
         };
@@ -1629,6 +1827,7 @@ fn explore(ctx: &Ctx) {
                 "transitions(history,target pairs)": st.transitions,
                 "per_depth": st.per_depth,
                 "alphabet": names,
+                "target_only(do not extend a history)": if all_extend { json!([]) } else { json!(TARGET_ONLY) },
                 "residues_present_before_target(counts of pairs)": acc.residues,
                 "capped": st.capped,
             }),
@@ -1636,7 +1835,7 @@ fn explore(ctx: &Ctx) {
     }
 
     // predicate checks with a memory pool handing out used memories
-    let alpha = env.alphabet(Mode::Interp);
+    let alpha = env.history_alphabet(Mode::Interp);
     let single = all_histories(&alpha, ctx.pick(1, 2));
     let short = all_histories(&alpha, 1);
     let mut pool_cases = 0u64;
